@@ -1110,7 +1110,6 @@ def pattern_str32(context, tree, c0, c1):
     context.emit(Str2(c1, rg, offset))
 
 
-@thumb_isa.pattern("reg", "LDRI8(mem)", size=2)
 @thumb_isa.pattern("reg", "LDRU8(mem)", size=2)
 def pattern_ldr8(context, tree, c0):
     rg, offset = c0
@@ -1119,12 +1118,27 @@ def pattern_ldr8(context, tree, c0):
     return d
 
 
-@thumb_isa.pattern("reg", "LDRI16(mem)", size=2)
 @thumb_isa.pattern("reg", "LDRU16(mem)", size=2)
 def pattern_ldr16(context, tree, c0):
     rg, offset = c0
     d = context.new_reg(LowArmRegister)
     context.emit(Ldrh(d, rg, offset))
+    return d
+
+
+# ldrb and ldrh zero extend, and ldrsb and ldrsh have no form with an
+# immediate offset. Sign extend the loaded value:
+@thumb_isa.pattern("reg", "LDRI8(mem)", size=4)
+def pattern_ldr_i8(context, tree, c0):
+    d = context.new_reg(LowArmRegister)
+    context.emit(Sxtb(d, pattern_ldr8(context, tree, c0)))
+    return d
+
+
+@thumb_isa.pattern("reg", "LDRI16(mem)", size=4)
+def pattern_ldr_i16(context, tree, c0):
+    d = context.new_reg(LowArmRegister)
+    context.emit(Sxth(d, pattern_ldr16(context, tree, c0)))
     return d
 
 
